@@ -22,9 +22,17 @@ type ExchangeRegexSchema struct {
 	exampleErr  error
 }
 
-// Example returns the same example on every call.
+// Example returns the same example on every call. CheckRegexExample has tried
+// the first example of the expression only, the generator may still panic on a
+// later one: that is an error of this call (and of every later one), not a
+// panic out of the serialisation.
 func (e *ExchangeRegexSchema) Example() ([]byte, error) {
 	e.onceExample.Do(func() {
+		defer func() {
+			if r := recover(); r != nil {
+				e.example, e.exampleErr = nil, fmt.Errorf("%s: %v", jerr.RegexExampleCannotBeGenerated, r)
+			}
+		}()
 		e.example, e.exampleErr = e.RSchema.Example()
 	})
 	return e.example, e.exampleErr
